@@ -10,6 +10,36 @@ CHECKS = {
         note="Trusted: the LIKE/BINARY-collation model (validated differentially against the live connection on every run); z3. Bounds: quick |dir|<=4..6,|label|<=6..8; thorough |dir|<=7..10,|label|<=9..12.",
     ),
 }
+CHECKS.update({
+    "C13": dict(
+        engine="E-Z3 + E-XH",
+        ref="DESIGN.md section 5 / C13",
+        technique="bounded SMT (z3 bit-vectors): the real StepHash.from_inp/with_out_hashes run on symbolic word proxies with SHA-256 replaced by a recorder; stream equality by a DP over byte cells; CrossHair for FileHash.refreshed",
+        text="Within the shape/length bounds, two different step configurations never feed the same byte stream to SHA-256 (injectivity of the pre-image for inputs and outputs), the stream does not depend on dict order (every order the real sorted() can take is forked with its path condition), and FileHash.refreshed/compute_inp_hashes re-hash and report a change exactly when a stat field differs and content/size/mode differ. unsat = holds for all values within the bound; a collision model is replayed with the real hashlib.",
+        note="Trusted: SHA-256 injective on the recorded stream; FileHash validity (unknown => mode=size=0, known => 32-byte digest, mode != 0); NUL-free strings <= 6 bytes (8 thorough), <= 2 files, <= 1-2 env vars, <= 1 override. JSON round trip not covered.",
+    ),
+    "C16": dict(
+        engine="E-Z3 + E-XH",
+        ref="DESIGN.md section 5 / C16",
+        technique="bounded SMT: bit-vector execution of the real _encode_message/_decode_header on byte proxies (all 64-bit ids); CrossHair on the real reader/pairing/dispatch code in a stream-slice domain with unbounded sizes",
+        text="Frame header round trip for every 64-bit call id and body length, acceptance of raw headers exactly up to MAX_BODY_SIZE, reassembly of two messages under any fragmentation or cut (sizes unbounded, <= 3-4 fragments), response pairing by id in both clients and in the server send loop, failure classes (same UsageError subclass or RPCError), exposure only through @allow_rpc. Confirmed over all paths within the bounds; counterexamples are replayed in plain Python.",
+        note="Trusted: int.to_bytes/from_bytes are big-endian inverses; recv() contract. Not covered: real sockets, asyncio scheduling, concurrency of in-flight calls, pickle.",
+    ),
+    "C17": dict(
+        engine="E-Z3 + E-XH",
+        ref="DESIGN.md section 5 / C17",
+        technique="SMT over regular languages (z3 regex): the regex produced by the real convert_nglob_to_regex (with the live compile flags) is translated exactly and compared with a reference assembled from the stdlib's fnmatch.translate, over all paths, for every pattern of a token grammar up to a length bound; CrossHair for extend/reduce/will_change",
+        text="For every enumerated pattern (<= 3 tokens quick, <= 4 thorough) the matcher accepts exactly the normalised relative paths that a standard recursive glob returns (files always, directories for patterns ending in '/', '*', '**', '${*name}'), naming a '*' changes nothing, a repeated name is included in distinct names with equal captures, the stored regex means the same at every compile site, and will_change equals a rescan. Paths are unbounded (language inclusion), patterns are enumerated.",
+        note="Trusted: the reference model of glob(recursive=True, include_hidden=True), validated against the real glob module on a generated tree on every run; the regex translator, validated against re on every run. Known finding: negated class matches '/'.",
+    ),
+    "C20": dict(
+        engine="E-XH",
+        ref="DESIGN.md section 5 / C20",
+        technique="symbolic execution (CrossHair/z3) of the real translate/translate_back/get_affixes/apply_affixes/_keep_affixes/parent_dir and the ROOT/HERE expressions of Executor._run_command through a pure-Python path shim extracted from the live stdlib",
+        text="For every path and workdir within the length bound (|p| <= 3, |wd| <= 2 over all characters quick; longer over {/ . a b} thorough) and five HERE settings, the translated path designates the same file from the root as the original from the step's directory, round trips, is normalised, keeps './' and trailing '/', and ROOT/HERE designate root and workdir. Confirmed over all paths; counterexamples replayed in plain Python.",
+        note="Trusted: the purepath shim (posixpath functions extracted from the live stdlib source, path.Path methods grafted), validated differentially on every run. Symlinks and the RPC path of api.step() are outside.",
+    ),
+})
 NOT_APPLICABLE = {
     "C15": "Atomicity/isolation are delivered by SQLite's C transaction machinery (BEGIN IMMEDIATE/commit/rollback) and asyncio task scheduling; the remaining Python has no symbolic input for a solver to range over, and a model of rollback would restate the assumption (DESIGN.md section 6).",
 }
